@@ -413,8 +413,10 @@ def handleOps (op : String) (args : List String) (impl : Impl) : Option Ans :=
     -- Props/C06 pin it to the IERS file and the NAIF kernel.  Time stamps are compared as integers.
     let sp := match impl with
       | .ok [s] =>
-        let got := (s.splitOn ",").map (fun x => match x.splitOn "/" with | [_, d, i] => d ++ "/" ++ i | _ => "?")
-        let want := tbl.map (fun e => e.bits ++ "/" ++ bool01 e.iers)
+        let got := (s.splitOn ",").map (fun x => match x.splitOn "/" with
+          | [t, d, i] => (match intOfF64Bits t with | some n => toString n | none => "?") ++ "/" ++ d ++ "/" ++ i
+          | _ => "?")
+        let want := tbl.map (fun e => toString e.ts ++ "/" ++ e.bits ++ "/" ++ bool01 e.iers)
         verdict [("same_as_generated", got == want)]
       | .other w => "FAIL:" ++ w
       | _ => "FAIL:decode"
@@ -537,7 +539,8 @@ def handleMore (op : String) (args : List String) (impl : Impl) : Option Ans :=
     let ordered := (items.zip items.tail).all (fun p => Dur.cmp p.1.dur p.2.dur == -1)
     let first := (items.take 3).map showEp
     let m := "ok " ++ toString n ++ " " ++ showEp endE ++ " " ++ (if first.isEmpty then "-" else ",".intercalate first) ++ " " ++
-      (match items.getLast? with | some l => showEp l | none => "-") ++ " " ++ bool01 ordered ++ " 1 1"
+      (match items.getLast? with | some l => showEp l | none => "-") ++ " " ++ bool01 ordered ++ " 1 1 " ++
+      toString ((items.foldl (fun (acc : Int) (x : Ep) => acc + sval x.dur) 0) % 18446744073709551616)
     -- spec: items are start + k·step for exactly the k with k·step < D (≤ D inclusive), D = end − start
     -- as the library's own (C04-specified) epoch difference; count = ceil(D/step) resp. floor(D/step)+1
     let vs := sval step
@@ -546,13 +549,15 @@ def handleMore (op : String) (args : List String) (impl : Impl) : Option Ans :=
                    inRange (sval start.dur + vD + vs)
     let wantN : Int := if vD < 0 then 0 else if incl then vD / vs + 1 else (vD + vs - 1) / vs
     let sp := if !fitsAll || vs ≤ 0 then noPanic impl else match impl with
-      | .ok [cnt, _endS, firstS, lastS, ord, same, after] =>
+      | .ok [cnt, _endS, firstS, lastS, ord, same, after, sum] =>
         let wn := if wantN > cap then (cap : Int) else wantN
         let wfirst := (List.range (min 3 wn.toNat)).map (fun (k : Nat) => showEp ⟨Dur.fromTotal (sval start.dur + (k : Int) * vs), start.ts⟩)
         let wlast := if wn == 0 then "-" else showEp ⟨Dur.fromTotal (sval start.dur + (wn - 1) * vs), start.ts⟩
         verdict [("count", cnt == toString wn), ("first_items", firstS == (if wfirst.isEmpty then "-" else ",".intercalate wfirst)),
                  ("last_item", lastS == wlast), ("increasing", ord == "1"), ("scale_of_start", same == "1"),
-                 ("none_after_end", after == "1")]
+                 ("none_after_end", after == "1"),
+                 -- every item, not only the first three and the last: Σ_{k<n} (start + k·step) mod 2^64
+                 ("checksum_of_all_items", sum == toString ((wn * sval start.dur + vs * (wn * (wn - 1) / 2)) % 18446744073709551616))]
       | .other w => "FAIL:" ++ w
       | _ => "FAIL:decode"
     pure { model := m, spec := sp, cls := tagD1 [step],
